@@ -99,7 +99,10 @@ def gen_case(streams, tier):
     for _ in range(w.randint(1, 4)):
         r = w.random()
         ws = w.sample(wires, w.randint(1, n))
-        if r < 0.18:
+        if w.random() < 0.15:
+            # +-1-valued observables whose eigenvalue order is not the bit-parity order
+            mps.append([w.choice(["sample", "counts", "expval", "var"]), qgen.gen_pm1_obs(w, wires)])
+        elif r < 0.18:
             mps.append(["sample", ws])
         elif r < 0.28:
             mps.append(["sample", qgen.gen_pauli_word(w, wires)])
